@@ -1152,7 +1152,9 @@ def selftest():
     # Z3-side decoding of literals is the identity on code points given as \u{..}
     for codes in ([34, 92, 10, 0, 0xe4, 0x20ac, 0x1f600, 0x2ffff], [92, 117, 123, 52, 49, 125], []):
         assert z3_codes(z3.StringVal(_enc_u(codes))) == codes, codes
-    assert _truth(z3.StringVal("a") == z3.StringVal("\\u{61}")) is True
+    # (isla.language patches z3.ExprRef.__eq__ to structural equality: build the Z3 equation explicitly)
+    _a, _b = z3.StringVal("a"), z3.StringVal("\\u{61}")
+    assert _truth(z3.BoolRef(z3.Z3_mk_eq(_a.ctx_ref(), _a.as_ast(), _b.as_ast()), _a.ctx)) is True
     # printers: ISLa text for quote/backslash
     assert _lit_text([97, 34, 92, 110], [1, 1, 1, 1], "isla") == 'a\\"\\n'
     assert _lit_text([34, 92], [0, 0], "smtlib") == "\\u{22}\\u{5c}"
